@@ -30,6 +30,7 @@ func init() {
 			{Name: "req-sched-send-recv-reply", Mode: "sched", Bound: b, Reset: kit.ResetGlobals, Body: schedSendRecvReply},
 			{Name: "req-sched-abandoned-recv-vs-fast-reply", Mode: "sched", Bound: b, Reset: kit.ResetGlobals, Body: schedFastReply},
 			{Name: "req-reply-before-transmission", Mode: "enum", Reset: kit.ResetGlobals, Body: replyBeforeTransmission, NeedCounters: []string{"guessed-reply-ignored"}},
+			{Name: "req-ids-after-a-failed-send", Mode: "enum", Reset: kit.ResetGlobals, Body: idsAfterFailedSend, NeedCounters: []string{"ids-distinct-after-failed-send"}},
 			{Name: "req-shared-message-two-contexts", Mode: "sched", Bound: b, Reset: kit.ResetGlobals, Body: schedSharedMessage},
 			{Name: "req-sched-two-ctx", Mode: "sched", Bound: b, Reset: kit.ResetGlobals, Body: schedTwoCtx},
 		}
@@ -803,6 +804,84 @@ func replyBeforeTransmission() {
 	}
 	kit.Observe("be=%v who=%d early=%d guess-ok=%v", bestEffort, who, early, idb == guess)
 	kit.Must("Socket.Close", func() { _ = w.sock.Close() })
+}
+
+// idsAfterFailedSend: nobody is connected.  Context A's Send (with a send deadline) waits, context
+// B's Send waits, A's times out, A (or, free choice, a third context) sends again, and only then a
+// peer connects and everything that waits goes out.  The requests on the wire carry different ids,
+// and a reply goes to the context whose request carried its id.
+func idsAfterFailedSend() {
+	third := kit.ChooseFree(2) == 1
+	s, err := req.NewSocket()
+	if err != nil {
+		kit.Failf("setup", "NewSocket: %v", err)
+	}
+	ep := vt.Get("reqids")
+	if err := s.Listen("vt://reqids"); err != nil {
+		kit.Failf("setup", "Listen: %v", err)
+	}
+	open := func() mangos.Context {
+		c, err := s.OpenContext()
+		if err != nil {
+			kit.Failf("setup", "OpenContext: %v", err)
+		}
+		return c
+	}
+	a, b := open(), open()
+	if err := a.SetOption(mangos.OptionSendDeadline, 50*time.Millisecond); err != nil {
+		kit.Failf("setup", "SendDeadline: %s", kit.ErrName(err))
+	}
+	sa := kit.Start("Send:a", func() (interface{}, error) { return nil, a.Send([]byte("from-a-1")) })
+	kit.Quiesce()
+	sb := kit.Start("Send:b", func() (interface{}, error) { return nil, b.Send([]byte("from-b")) })
+	kit.Quiesce()
+	kit.Sleep(50 * time.Millisecond)
+	kit.Quiesce()
+	if !sa.Done() || sa.Err != mangos.ErrSendTimeout || sb.Done() {
+		kit.Failf("setup", "nobody connected: a.Send done=%v %s (deadline 50ms), b.Send done=%v", sa.Done(), kit.ErrName(sa.Err), sb.Done())
+	}
+	c := a
+	cname := "a"
+	if third {
+		c, cname = open(), "c"
+	}
+	sc := kit.Start("Send:"+cname, func() (interface{}, error) { return nil, c.Send([]byte("from-" + cname + "-2")) })
+	kit.Quiesce()
+	if third && sc.Done() {
+		kit.Failf("setup", "c.Send returned %s with nobody connected", kit.ErrName(sc.Err))
+	}
+	p := ep.Connect()
+	kit.Quiesce()
+	if !sb.Done() || sb.Err != nil {
+		kit.Failf("send-blocked", "a peer is connected: b.Send done=%v %s", sb.Done(), kit.ErrName(sb.Err))
+	}
+	ids := map[uint32]string{}
+	for _, sm := range p.SentLog() {
+		id := binary.BigEndian.Uint32(sm.Data)
+		body := string(sm.Data[4:])
+		if other, dup := ids[id]; dup && other != body {
+			kit.Failf("send-id-unique", "the requests %q and %q are outstanding under the same id %08x (a Send had failed with a timeout in between)", other, body, id)
+		}
+		ids[id] = body
+	}
+	// answer b's request: only b may get it
+	for id, body := range ids {
+		if body == "from-b" {
+			p.Deliver(reply(id, "answer-for-b"))
+		}
+	}
+	rb := kit.Start("Recv:b", func() (interface{}, error) { x, err := b.Recv(); return string(x), err })
+	rc := kit.Start("Recv:"+cname, func() (interface{}, error) { x, err := c.Recv(); return string(x), err })
+	kit.Quiesce()
+	if !rb.Done() || rb.Err != nil || rb.Val.(string) != "answer-for-b" {
+		kit.Failf("recv-wrong-reply", "b's request was answered: b.Recv done=%v %s %q", rb.Done(), kit.ErrName(rb.Err), rb.Val)
+	}
+	if rc.Done() && rc.Err == nil {
+		kit.Failf("recv-wrong-reply", "%s.Recv returned %q although only b's request was answered", cname, rc.Val)
+	}
+	kit.Count("ids-distinct-after-failed-send")
+	kit.Observe("third=%v wire=%d", third, len(ids))
+	kit.Must("Socket.Close", func() { _ = s.Close() })
 }
 
 // schedSharedMessage: the application sends one message, cloned, as a request on two contexts
